@@ -26,7 +26,7 @@ def cfg(invariants, spec="Spec", constants=None, extra=""):
 
 def validate(ctx: Ctx, module: str, rows: list, *, invariants, files: dict | None = None,
              name: str | None = None, tag=lambda r: "", describe=lambda r: json.dumps(r)[:400],
-             expect_rows_ok="RowsOK", timeout=14400, env=None, java_opts="-Xss64m -Xmx24g",
+             expect_rows_ok="RowsOK", timeout=14400, env=None, java_opts=None,
              count_traces=True, workers=None, constants=None,
              result_keys=("r",), spec="Spec") -> bool:
     """Validate `rows` with spec module `module` (state variable i = row index).
@@ -36,6 +36,8 @@ def validate(ctx: Ctx, module: str, rows: list, *, invariants, files: dict | Non
     rejection prints KNOWN-FINDING instead of VIOLATION.
     """
     name = name or module
+    if java_opts is None:      # heap: quick tables are a few hundred thousand rows, thorough ones up to a few million
+        java_opts = "-Xss64m -Xmx12g" if ctx.tier == "quick" else "-Xss64m -Xmx24g"
     # Type-uniform rows: a result that is an exception (or any non-value) is moved to the `exc`
     # field, which every table spec tests BEFORE it touches the result (TLC cannot compare a
     # string with a tuple), so an unexpected exception is a rejected row, not a TLC error.
